@@ -694,7 +694,7 @@ func (d *rcDriver) Run(x *sched.Exec, raw json.RawMessage) json.RawMessage {
 		d.mu.Unlock()
 		// (seeded executions only) the client cancels the root context it gave to SetContext while a
 		// resolver call is in flight: the call's result must still be stored and delivered
-		if d.phase == 0 && d.wantRoot && !d.rootDone && len(x.Sched) == 0 && d.curCtx != 0 && d.nActive() > 0 {
+		if d.phase == 0 && !d.rootDone && (d.wantRoot && len(x.Sched) == 0 || x.NextWanted() == "rootcancel") && d.curCtx != 0 && d.nActive() > 0 {
 			k := d.curCtx
 			ms = append(ms, sched.Move{Label: "rootcancel", Do: func() {
 				d.rootDone = true
